@@ -28,8 +28,8 @@ import (
 //     does not see the scheduler's hand-offs as happens-before edges between tasks.
 // ---------------------------------------------------------------------------------------------------------------
 
-const maxTasks = 48
-const maxPoints = 96
+const maxTasks = 160
+const maxPoints = 320
 
 const (
 	stNew int32 = iota
@@ -60,6 +60,8 @@ type Task struct {
 	gateWait    int // steps by other tasks to sit out before the next probe (exponential back-off)
 	daemon      bool
 	auto        bool
+	spawned     bool      // a library-started goroutine adopted at its first statement (lazyGo)
+	settling    bool      // parked in Settle: only released when no other task is eligible
 	wakeAt      time.Time // Sleep: not eligible before this (fake) time
 	noPark      bool      // task-level switch: plain yield points do not park (gates still do)
 
@@ -108,7 +110,13 @@ type World struct {
 	pointEnabled [maxPoints]bool
 	pointHits    [maxPoints]int64
 	allPoints    bool // every point preemptible (default decided per run)
-	salt         uint64
+	// lazyGo: goroutines started by the library are adopted as (daemon) tasks at their first statement, so that when they
+	// get to run is decided by the scheduler instead of "at once, until they block" (decided per run; per spawn site the
+	// usual point enablement applies)
+	lazyGo   bool
+	selSalt  uint64 // seeds the choice among ready select cases, per step
+	spawnSeq [maxPoints]int32
+	salt     uint64
 
 	// interference: which task kinds ran while another task was parked at a hook point
 	overlaps int64
@@ -173,6 +181,24 @@ func goid() uint64 {
 	return id
 }
 
+// parentGoid returns the id of the goroutine that started the calling goroutine ("created by ... in goroutine N").
+func parentGoid() uint64 {
+	buf := make([]byte, 4096)
+	n := runtime.Stack(buf, false)
+	s := buf[:n]
+	const marker = " in goroutine "
+	for i := len(s) - len(marker); i >= 0; i-- {
+		if string(s[i:i+len(marker)]) == marker {
+			var id uint64
+			for j := i + len(marker); j < len(s) && s[j] >= '0' && s[j] <= '9'; j++ {
+				id = id*10 + uint64(s[j]-'0')
+			}
+			return id
+		}
+	}
+	return 0
+}
+
 // NewWorld must be called inside the bubble.
 func NewWorld(tape *Tape, scenario string, trace bool) *World {
 	w := &World{Tape: tape, Scenario: scenario, cur: -1, traceOn: trace, maxSteps: 600}
@@ -190,12 +216,14 @@ func NewWorld(tape *Tape, scenario string, trace bool) *World {
 		w.switchDen = []int{6, 3, 10, 20}[tape.Choose(4)]
 	}
 	w.allPoints = !tape.Flag(1, 3)
+	w.lazyGo = tape.Flag(1, 2) && !raceBuild // (race builds randomise the runtime's own run queue; and races do not depend on the schedule)
+	w.selSalt = uint64(tape.Choose(1 << 16))
 	w.salt = uint64(tape.Choose(1 << 16))
 	curWorld.Store(w)
 	return w
 }
 
-func (w *World) Close() { curWorld.Store(nil) }
+func (w *World) Close() { curWorld.Store(nil); simSelectSeed = 0 }
 
 //go:norace
 func (w *World) lookup(g uint64) *Task {
@@ -266,7 +294,13 @@ func (w *World) hook(point string, try func() bool) {
 	g := goid()
 	t := w.lookup(g)
 	if t == nil {
-		if try == nil || hiddenTry(try) {
+		if try == nil {
+			if w.lazyGo && strings.HasPrefix(point, "auto:go:") {
+				w.adoptSpawned(point, g)
+			}
+			return
+		}
+		if hiddenTry(try) {
 			return
 		}
 		// The holder may be a goroutine of the same cascade that is about to release the mutex (as it would have if this
@@ -316,6 +350,43 @@ func (w *World) hook(point string, try func() bool) {
 		w.ngates++
 	}
 }
+
+// adoptSpawned turns a goroutine that the library has just started into a daemon task, parked at its first statement.
+//
+//go:norace
+func (w *World) adoptSpawned(point string, g uint64) {
+	// Only goroutines started by a task (or by an adopted goroutine): what the scenario's own set-up code starts while no
+	// task is running it keeps the eager behaviour - when exactly such a goroutine first runs relative to the set-up
+	// code is up to the Go scheduler, so nothing may depend on it.
+	if n := int(atomic.LoadInt32(&w.ntasks)); n == 0 || n > maxTasks-24 || w.lookup(parentGoid()) == nil {
+		return
+	}
+	pi := w.pointIndex(point)
+	if !w.pointEnabled[pi] {
+		return
+	}
+	k := atomic.AddInt32(&w.spawnSeq[pi], 1)
+	t := &Task{W: w, Name: fmt.Sprintf("%s#%d", strings.TrimPrefix(point, "auto:"), k), goid: g, wake: make(chan struct{}), done: make(chan struct{}), daemon: true, spawned: true}
+	atomic.StoreInt32(&t.state, stRunning)
+	w.addTask(t)
+	t.park("start", true)
+}
+
+// anyParked reports whether some task is parked at a scheduling point.
+//
+//go:norace
+func (w *World) anyParked() bool {
+	n := int(atomic.LoadInt32(&w.ntasks))
+	for i := 0; i < n; i++ {
+		if atomic.LoadInt32(&w.tasks[i].state) == stParked {
+			return true
+		}
+	}
+	return false
+}
+
+// LazyGoroutines reports whether library-started goroutines are scheduled lazily in this run.
+func (w *World) LazyGoroutines() bool { return w.lazyGo }
 
 // GatePass records that a task went through a lock gate in a given step.
 type GatePass struct {
@@ -422,6 +493,17 @@ func (t *Task) Sleep(d time.Duration) {
 // Yield is a harness-level scheduling point.
 func (t *Task) Yield(op string) { t.park(op, true) }
 
+// Settle parks the task until nothing else can run: every other task (library goroutines that were adopted included)
+// has finished or is blocked. Oracles that speak about "a reader that keeps up" or "the next Get" use it to let the
+// system come to rest first.
+//
+//go:norace
+func (t *Task) Settle(op string) {
+	t.settling = true
+	t.park(op, true)
+	t.settling = false
+}
+
 // NoPark switches parking at plain library yield points off (gates still park) for coarse-grained scenarios.
 func (t *Task) NoPark(v bool) { t.noPark = v }
 
@@ -485,6 +567,8 @@ type parkedInfo struct {
 //go:norace
 func (w *World) collect(elig []parkedInfo) (out []parkedInfo, blockedGates int, running int, unfinished int) {
 	out = elig[:0]
+	var settlingBuf [8]parkedInfo
+	settling := settlingBuf[:0]
 	n := int(atomic.LoadInt32(&w.ntasks))
 	now := time.Now()
 	w.nextWake = time.Time{}
@@ -511,6 +595,10 @@ func (w *World) collect(elig []parkedInfo) (out []parkedInfo, blockedGates int, 
 			if !t.daemon {
 				unfinished++
 			}
+			if t.settling {
+				settling = append(settling, parkedInfo{t, t.point, t.preemptible})
+				continue
+			}
 			out = append(out, parkedInfo{t, t.point, t.preemptible})
 			// keep the list ordered by task name: registration order of library-started goroutines that adopt themselves
 			// (group members, handlers) is not deterministic, their names are
@@ -521,6 +609,15 @@ func (w *World) collect(elig []parkedInfo) (out []parkedInfo, blockedGates int, 
 			running++
 			if !t.daemon {
 				unfinished++
+			}
+		}
+	}
+	if len(out) == 0 && len(settling) > 0 {
+		// nothing else can run: the settling tasks (in name order) become eligible
+		for _, p := range settling {
+			out = append(out, p)
+			for k := len(out) - 1; k > 0 && out[k].t.Name < out[k-1].t.Name; k-- {
+				out[k], out[k-1] = out[k-1], out[k]
 			}
 		}
 	}
@@ -689,6 +786,7 @@ func (w *World) Run() {
 			w.trace = append(w.trace, pick.t.Name+"@"+pick.point)
 		}
 		w.cur = pick.t.idx
+		simSelectSeed = splitmix(w.selSalt<<20^uint64(w.Step())) | 1
 		w.release(pick.t)
 	}
 }
